@@ -14,6 +14,7 @@ exploits: it truncates the list.
 Nothing in here reads a real clock or really sleeps.
 """
 import _thread
+import gc
 import os
 import heapq
 import random
@@ -58,7 +59,10 @@ class SimStop(BaseException):
 STALL_DURATIONS = (0.1, 0.7, 2.5, 6.0, 12.0, 40.0)
 
 
+GC_EVERY = 256
 KDEBUG = os.environ.get('VERIF_KDEBUG')
+KSWITCHLOG = os.environ.get('VERIF_KSWITCHLOG')
+KNOWFROM = float(os.environ.get('VERIF_KNOWFROM', '1e18'))
 
 
 class Kernel:
@@ -105,6 +109,7 @@ class Kernel:
         self.slow_pool = None  # (n, p): tasks of the n-th pool created in this run start 6-40 s late with probability p
         self.slow_pool_delays = 0
         self.slow_thread = None
+        self._gc_tick = 0
         self.focus_p = 0.0
         self.focus_preempts = 0
 
@@ -142,6 +147,10 @@ class Kernel:
     # --- time ------------------------------------------------------------------------------
     def now(self):
         self.clock += 1e-6
+        if KSWITCHLOG and self.clock > KNOWFROM:
+            fr = [f for f in traceback.extract_stack()[:-1] if '/sim/' not in f.filename and '/reactivex/' not in f.filename][-6:]
+            with open(KSWITCHLOG + '.%d' % os.getpid(), 'a') as fh:
+                fh.write('  NOW %.6f %s\n' % (self.clock, ' < '.join('%s:%d:%s' % (f.filename.split('/')[-1], f.lineno, f.name) for f in reversed(fr))))
         return self.EPOCH0 + self.clock
 
     def peek(self):
@@ -217,6 +226,9 @@ class Kernel:
         self.steps += 1
         nxt = self._pick()
         self.digest.update(('%s@%.6f;' % (nxt.name, self.clock)).encode())
+        if KSWITCHLOG:  # triage aid for determinism: the sequence of switches that the digest is made of
+            with open(KSWITCHLOG + '.%d' % os.getpid(), 'a') as fh:
+                fh.write('%s@%.6f\n' % (nxt.name, self.clock))
         if nxt is me:
             me._state = 'running'
             self.current = me
@@ -237,6 +249,9 @@ class Kernel:
         me = self.cur()
         if me is None or not self.active or self.killing:
             return
+        self._gc_tick += 1
+        if self._gc_tick % GC_EVERY == 0:
+            gc.collect()
         sp = getattr(me, '_stall_p', None)  # a slow thread (per-thread stall probability) or the run's stall rate
         if sp is None:
             st = self.slow_thread  # (substring of the thread's name, p): one kind of thread is slow in this run
@@ -309,6 +324,11 @@ K = None  # the kernel of this process' current run
 def new_kernel(seed, **kw):
     global K
     K = Kernel(seed, **kw)
+    # The cyclic garbage collector is a scheduler of its own: it runs finalizers and weak-reference callbacks (reactivex
+    # disposables, pools) whenever an allocation counter inherited from the worker's earlier jobs crosses a threshold.
+    # From here on it runs only at yield points, every GC_EVERY-th one: a function of the run's own history.
+    gc.collect()
+    gc.disable()
     return K
 
 
@@ -767,6 +787,10 @@ class SimThreadPoolExecutor:
         self._workers = []
         self._prefix = thread_name_prefix or ('Pool%d' % n)
         self._n = n
+        if KSWITCHLOG:
+            fr = [f for f in traceback.extract_stack()[:-1]][-4:]
+            with open(KSWITCHLOG + '.%d' % os.getpid(), 'a') as fh:
+                fh.write('POOLCREATE %s by %s\n' % (self._prefix, ' < '.join('%s:%d:%s' % (f.filename.split('/')[-1], f.lineno, f.name) for f in reversed(fr))))
         self._shutdown = False
 
     def submit(self, fn, *args, **kwargs):
